@@ -498,8 +498,8 @@ func (e *forcedEnv) runCacheFamily(fam, variant string, n int, res *forcedResult
 		if rest, ok := strings.CutPrefix(variant, "mgr"); ok {
 			third, kinds = true, strings.TrimPrefix(rest, "/")
 		}
-		// "late/…" (NOT part of the check, see notes/C09.md F6): a search runs from start to end after writer 1 has
-		// given the cache up and before writer 2 goes on
+		// "late/…" (known finding F6, notes/C09.md): a search runs from start to end after writer 1 has given the
+		// cache up and before writer 2 goes on
 		late := false
 		if rest, ok := strings.CutPrefix(variant, "late"); ok {
 			late, kinds = true, strings.TrimPrefix(rest, "/")
@@ -558,7 +558,11 @@ func (e *forcedEnv) runCacheFamily(fam, variant string, n int, res *forcedResult
 			must(c.RunUntil("S", "With.lookup", 1), "arrived") // holds the manager lock
 		}
 		s1 := c.RunUntil("W1", "", 0)
-		if late && s1.Kind == "done" {
+		if late {
+			if s1.Kind != "done" {
+				// writer 1 did not get through its Commit: the window the family is about never opened
+				panic(fmt.Sprintf("schedule could not be forced: writer 1 did not finish its Commit: %+v", s1))
+			}
 			e.searcher("S", qS)
 			sS = c.RunUntil("S", "", 0)
 			third = true
@@ -603,7 +607,9 @@ func (e *forcedEnv) runCacheFamily(fam, variant string, n int, res *forcedResult
 		ref := e.reference("v0", ops)
 		defer ref.Close()
 		hist := fmt.Sprintf("%s (fault: %s) parked after its storage transaction ended; %s started and ran as far as it could", op1, fault, op2)
-		if third {
+		if late {
+			hist += "; writer 1 ran on to its end; a search ran from start to end"
+		} else if third {
 			hist += "; a search parked holding the manager lock"
 		}
 		hist += "; writer 1 ran on, then writer 2, then everybody finished"
